@@ -7,6 +7,9 @@ plan of the call in flight (``ENV.plan``):
   mode      inline   tasks run one after another on the shared argument objects
             process  every task's (f, args, kwargs) and its result go through
                      pickle: no shared memory with the coordinator (loky)
+            hashproc as process, but in real child interpreters started with a
+                     string-hash seed of their own (plan['hash_seed']); used
+                     rarely (a child costs an import of pandas)
             threads  every task is a real thread that shares the arguments;
                      exactly one thread holds the baton; at every seam event the
                      scheduler may hand the baton to another task (joblib's
@@ -61,8 +64,10 @@ class SimParallel(object):
         mode = plan.get('mode', 'inline')
         shared = (self.backend == 'threading' or self.prefer == 'threads'
                   or self.require == 'sharedmem')
-        if shared and mode == 'process':
+        if shared and mode in ('process', 'hashproc'):
             mode = 'threads'   # the caller asked for shared memory
+        if mode == 'hashproc' and (ENV.fault is not None or n == 0):
+            mode = 'process'   # faults live in the coordinator's interpreter
         if self.n_jobs == 1 and mode != 'inline':
             mode = 'inline'    # joblib runs n_jobs=1 sequentially in-process
         oseed = plan.get('order_seed')
@@ -87,6 +92,8 @@ class SimParallel(object):
         if mode == 'threads':
             results, order_done = _run_threads(tasks, dispatch, plan,
                                                crash_after, fno)
+        elif mode == 'hashproc':
+            results, order_done = _run_hashproc(tasks, dispatch, plan, fno)
         else:
             workers = None
             if mode == 'process' and plan.get('reuse_workers', True):
@@ -301,6 +308,27 @@ def _run_seq(tasks, dispatch, mode, crash_after, fno, workers=None):
     finally:
         ENV.actor = prev
     return results, done
+
+
+def _run_hashproc(tasks, dispatch, plan, fno):
+    """Real child interpreters with a string-hash seed of their own (see
+    sim.hashproc)."""
+    from sim import hashproc
+    from sim.env import REPO
+    prev = ENV.actor
+    hs = int(plan.get('hash_seed', 1)) + 2 * fno
+    ENV.log('hash_seeds', (hs, hs + 1))
+
+    def log(kind, i):
+        ENV.actor = 'task:%d' % i
+        ENV.log(kind, i)
+    try:
+        return hashproc.run_fanout(tasks, dispatch, hs, REPO, log)
+    except hashproc.ChildDied as e:
+        from sim.execu import HarnessError
+        raise HarnessError('hashproc worker: %s' % (e,))
+    finally:
+        ENV.actor = prev
 
 
 class _ThreadSched(object):
